@@ -70,7 +70,11 @@ Definition sig_dependents : list N :=
    Specification oracle (on the implementation's observables only): the statement of C19 — the
    listing is the announced sequence (whatever the selector writes), everything else is about
    the sequence as the selector left it ([seen]).  A hang of the real Send/Receive (watchdog of
-   the harness) is specification-false in EVERY case, judged or not. *)
+   the harness) is specification-false in EVERY case, judged or not.
+   A selection that forwards a hard link without its source (not link-closed) must be REJECTED
+   (receive.go shows the hard-link validator only the forwarded entries): Receive returns an
+   error, and whatever the diff/writer was handed by then was caused by the entries before the
+   rejected one ([applied]) — clause 10. *)
 Definition run_1901 (input impl : sx) : sx :=
   match input, impl with
   | SL (sv :: pv :: tab :: def :: _ :: mg :: rwx),
@@ -118,12 +122,17 @@ Definition run_1901 (input impl : sx) : sx :=
       (* observation, outside the statement (merge mode): a non-empty directory at the listing path
          survives a merge, the epilogue cannot replace it and Receive returns an error: not judged *)
       let merge_dir := merge && existsb (fun e => under listing_name (st_path (fst e))) priorAll in
-      let judged := sender_ok && closed && (merge || identity_faithful priorE proj) && negb merge_dir in
+      let judged := sender_ok && negb merge_dir && (negb closed || merge || identity_faithful priorE proj) in
+      let applied_paths := map st_path (applied sel rsS) in
+      let c_rejected := negb (N.eqb re 0)
+                        && forallb (fun x => existsb (bytes_eqb (fst x)) applied_paths) fwd && c_sentinel in
       let holds := c_nohang && (negb judged
-                   || (c_success && c_file && c_listing && c_framing && c_reqs && c_fwd && c_conv && c_sentinel)) in
+                   || (if closed
+                       then c_success && c_file && c_listing && c_framing && c_reqs && c_fwd && c_conv && c_sentinel
+                       else c_rejected)) in
       (* ---- model ---- *)
       let m := meta_recv_rw sel rwf announced in
-      let acc := recv_accepts annS in
+      let acc := recv_accepts_rw sel rwf announced in
       let model_reqs := filter (fun i => match nth_error annS i with
                                          | Some s => negb (has_link s) && need_content s
                                          | None => false end) (map snd (r_files m)) in
@@ -138,9 +147,12 @@ Definition run_1901 (input impl : sx) : sx :=
         else SL [of_bool sender_model; SN 0] in
       let deps := listing_dependents announced in
       let info :=
-        SL (clause 9 c_nohang ++ clause 1 c_success ++ clause 2 c_file ++ clause 3 c_listing ++ clause 4 c_framing
-            ++ clause 5 c_reqs ++ clause 6 c_fwd ++ clause 7 c_conv ++ clause 8 c_sentinel
-            ++ (if c_success && negb c_conv then converged_diag merge priorE proj dest else [])
+        SL (clause 9 c_nohang
+            ++ (if closed
+                then clause 1 c_success ++ clause 2 c_file ++ clause 3 c_listing ++ clause 4 c_framing
+                     ++ clause 5 c_reqs ++ clause 6 c_fwd ++ clause 7 c_conv ++ clause 8 c_sentinel
+                     ++ (if c_success && negb c_conv then converged_diag merge priorE proj dest else [])
+                else clause 10 c_rejected)
             ++ (if deps && negb success then [sig sig_dependents] else [])) in
       Some (if judged then verdict model_obs impl_obs holds info
             else verdict impl_obs impl_obs c_nohang (SL (clause 9 c_nohang)))
